@@ -81,13 +81,6 @@ func init() {
 	Gen("C07", genC07)
 }
 
-func trunc(s string, n int) string {
-	if len(s) > n {
-		return s[:n] + "..."
-	}
-	return s
-}
-
 // finding class: the entry point, and for the per-structure SMB decoders the structure name
 func c07Class(fn string, args []Val) string {
 	if fn == "smb.unmarshal" && len(args) > 0 {
